@@ -4,7 +4,7 @@ CONSTANTS
   Missing = {}
   ItemSeq <- Seq3
   MissSeq <- Miss0
-  MaxDepLen = 2
+  MaxDepLen = 1
   SchedLen = 4
   MaxPer = 2
   RepeatDeps = FALSE
@@ -13,7 +13,7 @@ CONSTANTS
   Defect_CommitFirst = FALSE
   Concurrent = FALSE
   InputPoints = {"idle", "new", "begin", "take", "get", "commit", "ret", "notified"}
-  MaxCancel = 2
+  MaxCancel = 1
 INVARIANTS
   TypeOK
   C12_NoLoss
